@@ -169,9 +169,9 @@ impl Check for Timelock {
     }
     fn runs(&self, tier: Tier) -> u64 {
         if tier == Tier::Quick {
-            600
+            3000
         } else {
-            60_000
+            60000
         }
     }
     fn components(&self) -> serde_json::Value {
